@@ -511,6 +511,40 @@ Section WindowFacts.
         now replace (Nat.min (Z.to_nat d) old) with (Z.to_nat d) by lia.
   Qed.
 
+  (* the depth setter of a column with its own padding value (defaultnan=False: 0) *)
+  Theorem set_depth_pad_spec_L1 : forall (pad : option V) old (d : Z) (s : list row),
+    (0 <= d)%Z -> (forall r, In r s -> length r = old) ->
+    set_depth1_pad pad old d s = Some (set_depth_pad pad (Z.to_nat d) s).
+  Proof.
+    intros pad old d s Hd Hs. unfold set_depth1_pad, k_depth_same, k_depth_grow, set_depth_pad, rowwise, set_depth_row_pad.
+    unfold Series.row, sample in *.
+    destruct (Z.eqb_spec d (Z.of_nat old)) as [E|E].
+    - f_equal. rewrite <- (map_id s) at 1. apply map_ext_in. intros r Hr. rewrite E, Nat2Z.id, <- (Hs r Hr).
+      rewrite firstn_all, Nat.sub_diag. simpl. now rewrite app_nil_r.
+    - destruct (Z.gtb_spec d (Z.of_nat old)) as [G|G].
+      + apply all_some_map_Some. intros r Hr. specialize (Hs r Hr).
+        replace (repeat pad (Z.to_nat d)) with (repeat pad old ++ repeat pad (Z.to_nat d - old))
+          by (rewrite <- repeat_app; f_equal; lia).
+        rewrite np_set_head by (rewrite ?repeat_length; lia).
+        rewrite firstn_all2 by lia. now rewrite Hs.
+      + f_equal. apply map_ext_in. intros r Hr. specialize (Hs r Hr).
+        unfold np_get, pyslice, norm_opt, norm_idx. destruct (Z.ltb_spec d 0); [lia|]. simpl skipn.
+        rewrite Nat.sub_0_r. rewrite !Hs. replace (Z.to_nat d - old) with 0 by lia. simpl repeat. rewrite app_nil_r.
+        now replace (Nat.min (Z.to_nat d) old) with (Z.to_nat d) by lia.
+  Qed.
+  (* padding with NaN is the depth property of the statement; the model with NaN padding is the plain depth setter *)
+  Theorem set_depth_pad_nan : forall d (s : list row), set_depth_pad None d s = set_depth d s.
+  Proof. reflexivity. Qed.
+  Theorem set_depth1_pad_nan : forall old d (s : list row), set_depth1_pad None old d s = set_depth1 old d s.
+  Proof. reflexivity. Qed.
+  (* growing keeps every row and appends the padding; the result has the new depth *)
+  Theorem set_depth_row_pad_grow : forall (pad : option V) (r : row) k,
+    set_depth_row_pad pad (length r + k) r = r ++ repeat pad k.
+  Proof.
+    intros. unfold set_depth_row_pad. unfold Series.row, sample in *. rewrite firstn_all2 by lia.
+    now rewrite Nat.add_comm, Nat.add_sub.
+  Qed.
+
   Theorem set_depth_row_length : forall d (r : row), length (set_depth_row d r) = d.
   Proof.
     intros. unfold set_depth_row, nans, sample in *. rewrite app_length, repeat_length, firstn_length.
